@@ -19,6 +19,7 @@ package mq
 //@     invariant x == specShr7(uint(v), i - n)
 //@     invariant i - n > 0 ==> x > 0
 //@     invariant forall k in 0..i-n: n + k < len(data) ==> data[n+k] == specVbByte(uint(v), k)     #C15 #C02
+//@     assigns data[n:n+specVbWidth(uint(v))]
 //@     decreases 10 - (i - n)
 
 //@ func (*vbint).UnmarshalBinary
@@ -340,6 +341,7 @@ package mq
 //@   ensures result >= 0
 //@   loop 0:
 //@     invariant n <= i && -1 <= rangeindex
+//@     assigns b[n:len(b)]
 //@     decreases len(*p) - rangeindex
 
 // ---------------------------------------------------------------- packet encoders: list loops
@@ -348,30 +350,35 @@ package mq
 //@   inline
 //@   loop 0:
 //@     invariant n <= i
+//@     assigns b[n:len(b)]
 //@     decreases len(p.subscriptionIDs) - rangeindex
 
 //@ func (*Subscribe).payload
 //@   inline
 //@   loop 0:
 //@     invariant n <= i
+//@     assigns b[n:len(b)]
 //@     decreases len(p.filters) - rangeindex
 
 //@ func (*SubAck).payload
 //@   inline
 //@   loop 0:
 //@     invariant n <= i
+//@     assigns b[n:len(b)]
 //@     decreases len(p.reasonCodes) - rangeindex
 
 //@ func (*Unsubscribe).payload
 //@   inline
 //@   loop 0:
 //@     invariant n <= i
+//@     assigns b[n:len(b)]
 //@     decreases len(p.filters) - rangeindex
 
 //@ func (*UnsubAck).payload
 //@   inline
 //@   loop 0:
 //@     invariant n <= i
+//@     assigns b[n:len(b)]
 //@     decreases len(p.reasonCodes) - rangeindex
 
 // ---------------------------------------------------------------- lemmas over the spec functions
@@ -407,6 +414,7 @@ package mq
 //@     invariant 0 <= n && n <= len(buf) && $pos == old($pos) + n && $pos <= $N
 //@     invariant forall k in 0..n: buf[k] == S(old($pos) + k)
 //@     invariant err != nil ==> isT(err) && $pos == $N
+//@     assigns elems(buf)
 
 //@ func (*bits).ReadFrom
 //@   requires r != nil
@@ -436,6 +444,7 @@ package mq
 //@     invariant i == 2 ==> value == uint(b0) % 128 + (uint(b1) % 128) * 128
 //@     invariant i == 3 ==> value == uint(b0) % 128 + (uint(b1) % 128) * 128 + (uint(b2) % 128) * 16384
 //@     invariant i == 4 ==> value == uint(b0) % 128 + (uint(b1) % 128) * 128 + (uint(b2) % 128) * 16384 + (uint(b3) % 128) * 2097152
+//@     assigns elems(data)
 //@     decreases 5 - i
 
 //@ func (*fixedHeader).ReadFrom
